@@ -134,7 +134,7 @@ fn admissible(tr: &Traj, limit: i32, cap: usize, tl: u64) -> Vec<(R, usize)> {
             return out;
         }
         // execute step j+1; growth cap: exactly when a single step enlarged the state by more than cap
-        let grown = size9(&tr.states[j + 1]) > size9(&tr.states[j]) + cap;
+        let grown = size9(&tr.states[j + 1]) > size9(&tr.states[j]).saturating_add(cap);
         j += 1;
         if grown {
             out.push((R::Growth, j));
@@ -269,6 +269,37 @@ pub fn ladder_family(ctx: &mut Ctx) {
             items[k] = Tree::ins("TICK5");
             let prog = Tree::L(items);
             check_case(ctx, &mut real, "empty", &prog, &bs[0].1, 100, 500, 3);
+        }
+    }
+    // several growing steps in one run: each within the cap, together far beyond it (the cap is per step)
+    for k in 1..=3usize {
+        let prog = Tree::L(vec![Tree::ins(&format!("GROW.I.{}", k)), Tree::ins("NOOP"), Tree::ins(&format!("GROW.F.{}", k)), Tree::ins(&format!("GROW.B.{}", k)), Tree::ins(&format!("GROW.I.{}", k))]);
+        for (bl, base) in &bs {
+            for cap in [k - 1, k, k + 1, 2 * k, 3 * k] {
+                check_case(ctx, &mut real, bl, &prog, base, 50, cap, 5000);
+            }
+        }
+    }
+    // extreme configuration values (limits "switched off" by a huge number, type boundaries of the fields)
+    {
+        let progs = [
+            Tree::L((0..3).map(|_| Tree::ins("NOOP")).collect()),
+            Tree::L(vec![Tree::ins("NOOP"), Tree::ins("GROW.I.3"), Tree::ins("TICK5"), Tree::ins("NOOP")]),
+            Tree::L(vec![Tree::ins("EXEC.DUP"), Tree::L(vec![Tree::I(1), Tree::I(2)])]),
+        ];
+        let caps = [i32::MAX as usize - 1, i32::MAX as usize, i32::MAX as usize + 1, 3_000_000_000usize, u32::MAX as usize, (u32::MAX as usize) + 1, (u32::MAX as usize) + 2, usize::MAX / 2, usize::MAX - 1, usize::MAX, 500, 1000, 12];
+        let limits = [i32::MIN, -1000, 50, 1000, i32::MAX - 1, i32::MAX];
+        let tls = [3u64, 1000, u32::MAX as u64, u32::MAX as u64 + 1, i64::MAX as u64, u64::MAX];
+        for prog in &progs {
+            for (bl, base) in &bs {
+                for cap in caps {
+                    for limit in limits {
+                        for tl in tls {
+                            check_case(ctx, &mut real, bl, prog, base, limit, cap, tl);
+                        }
+                    }
+                }
+            }
         }
     }
     // growth: each of the nine counted stacks, k items pushed by one step, around every cap
